@@ -158,6 +158,8 @@ partial def flatS (zero one : V) (negV : V → V) (isOne isZero : V → Bool) (f
       if !pre.isEmpty then none else do         -- operands of a loop test must be plain operands (re-evaluated each iteration)
         let (fs2, cb) ← flatB zero one negV isOne isZero fs1 body
         pure (fs2, [PV.Core.Stmt.while cnd neg oa ob (seqAll cb)])
+  | .brk => some (fs, [PV.Core.Stmt.brk])       -- the generator only places these inside `while` loops
+  | .cont => some (fs, [PV.Core.Stmt.cont])
   | .yield => some (fs, [PV.Core.Stmt.yield])
   | .sleep (.num v) => some (fs, [PV.Core.Stmt.sleep (.num v)])
   | .pass => some (fs, [])
